@@ -32,9 +32,18 @@ Classes == DOMAIN defs
 Insts == DOMAIN insts
 Live == DOMAIN desc
 
-(* the Key: textual definition chain, configuration, own mutations.  Ids do not occur. *)
-RECURSIVE CKey(_, _)
-CKey(d, c) == <<d[c].body, [j \in 1 .. Len(d[c].bases) |-> CKey(d, d[c].bases[j])]>>
+(* the Key: textual definition chain, configuration, own mutations.  Ids do not occur, but *)
+(* the SHAPE of the base graph does (a base shared by two paths is not the same as two     *)
+(* textually equal classes - python's MRO tells them apart): the chain is written as the   *)
+(* list of its distinct classes in depth-first order, bases referred to by position.       *)
+RECURSIVE Visit(_, _, _), VisitSeq(_, _, _, _)
+Visit(d, c, seen) == IF \E j \in 1 .. Len(seen) : seen[j] = c THEN seen
+                     ELSE VisitSeq(d, d[c].bases, 1, Append(seen, c))
+VisitSeq(d, bs, k, seen) == IF k > Len(bs) THEN seen ELSE VisitSeq(d, bs, k + 1, Visit(d, bs[k], seen))
+Lin(d, c) == Visit(d, c, <<>>)
+Pos(L, c) == CHOOSE j \in 1 .. Len(L) : L[j] = c
+CKey(d, c) == LET L == Lin(d, c) IN
+              [j \in 1 .. Len(L) |-> <<d[L[j]].body, [b \in 1 .. Len(d[L[j]].bases) |-> Pos(L, d[L[j]].bases[b])]>>]
 Key(d, n, x) == IF x \in DOMAIN d THEN <<"C", CKey(d, x)>>
                 ELSE <<"I", <<CKey(d, n[x].cls), n[x].cfg, n[x].muts>>>>
 
